@@ -27,6 +27,9 @@ import c13_shared as sh  # noqa: E402
 import joblib.compressor as jc  # noqa: E402
 
 SPIN_LIMIT = 20000
+ALARM_S = int(os.environ.get("VERIF_C13_ALARM", "6"))
+MAX_TIMER_HANGS = 2   # after that many timer-detected hangs the remaining cases of this process are skipped
+TIMER_HANGS = [0]
 
 
 class Spin(BaseException):
@@ -42,6 +45,7 @@ class RecDecomp:
         self._d = real_zlib.decompressobj(wbits)
         self._log = log
         self._empties = 0
+        self._after_eof = 0
 
     @property
     def eof(self):
@@ -56,6 +60,12 @@ class RecDecomp:
         return self._d.unconsumed_tail
 
     def decompress(self, data, *a):
+        if self._d.eof:
+            # the current code never feeds the decompressor after the end marker; the pre-fix loop did, for
+            # ever, doubling unused_data each time -- stop it deterministically before memory explodes
+            self._after_eof += 1
+            if self._after_eof > 6:
+                raise Spin("decompress() called %d times after the end-of-stream marker" % self._after_eof)
         out = self._d.decompress(data, *a)
         self._empties = 0 if out else self._empties + 1
         if len(self._log) < 100000:
@@ -158,7 +168,7 @@ def run_read(case):
         f = CLS[case["fmt"]](target, "rb")
         res.append([["open"], state(f)])
         for o in case["ops"]:
-            signal.alarm(20)
+            signal.alarm(ALARM_S)
             try:
                 r = do_op(f, o)
             except Spin as e:
@@ -166,7 +176,8 @@ def run_read(case):
                 res.append([["hang", str(e)], state(f)])
                 break
             except Alarm:
-                res.append([["hang", "no result after 20 s"], state(f)])
+                TIMER_HANGS[0] += 1
+                res.append([["hang", "no result after %d s" % ALARM_S], state(f)])
                 break
             except Exception as e:  # noqa
                 r = exc_code(e)
@@ -242,7 +253,10 @@ def main():
             continue
         c = json.loads(line)
         try:
-            r = run_read(c) if c["kind"] == "read" else run_write(c)
+            if TIMER_HANGS[0] >= MAX_TIMER_HANGS:
+                r = {"skipped": "earlier cases of this process hung"}
+            else:
+                r = run_read(c) if c["kind"] == "read" else run_write(c)
         except BaseException as e:  # harness-level failure is reported, not hidden
             r = {"harness_error": repr(e)}
         sys.stdout.write(json.dumps(r) + "\n")
